@@ -12,7 +12,7 @@ LEVEL = 'model_checking'
 RULE = ('every string of length <= 3 [quick: length 3 only in 5 of the 17 positions] over the 18 characters {a Z 0 _ space \' " LF CR # % ( ) , . : é 五} '
         'plus 30 payloads (Python expressions, statements after a newline, engine/API names, dunder names, each carrying '
         'a unique marker) as a quoted atom in EVERY syntactic position (clause-head name - also in a parenthesised or operator head -, body-goal name, head argument, '
-        'goal argument, functor name, list element, directive argument, both sides of =), and every hostile identifier as '
+        'goal argument, functor name, list element, directive argument, both sides of =), and 288 generated break-out attempts (quote of either kind + code + closers + comment tail, with and without the other kind of quote), and every hostile identifier as '
         'a variable name in head and body; goals named like the compiler\'s internal markers ($CUTIF, ...) with hostile arguments. For each output: (i) provenance - the marker occurs only inside constants, '
         'clause-local names or a function name that is an identifier; (ii) reference closure - module body is function '
         'definitions only, no Attribute/Import/Lambda/Global/class/decorator/default, every name read is local or an '
@@ -32,6 +32,23 @@ PAYLOADS = [
     "__import__", "__class__", "zq7.__class__", "zq7)]): pass #", "zq7'", 'zq7"', "zq7\\", "zq7 # comment", "zq7\r\nimport os",
     "zq7;import os", "zq7=1", "zq7\rimport os", "zq7\rdef zq7c():\r  yield False\rmakelist = variable\r#", "zq7\x0cimport os", "zq7\u2028import os", "zq7\x85import os", "lambda: zq7", "zq7_1", "zq7_n", "doBreak", "l1", "arg1", "zq7 import os", "yield zq7", "functor",
 ]
+# break-out attempts: a quote of either kind, something that would be code (the marker as a further
+# argument, list element or operand), a run of closers that could balance the call the literal sits
+# in, and a tail that comments out the rest of the line - each also with the OTHER kind of quote
+# somewhere in the text (a generator that picks the quote character by content takes another path)
+def _breakouts():
+    out = []
+    for q, other in (("'", '"'), ('"', "'")):
+        for sep in (',zq7', ',[zq7]', '+zq7', ''):
+            for closer in ('', ')', '))', ')))', ']))', ')])'):
+                for tail in (': #', ' #', ':\n  pass #'):
+                    base = 'a' + q + sep + closer + tail
+                    out.append(base)
+                    out.append(base + other)
+    return out
+
+
+BREAKOUTS = _breakouts()
 INTERNAL_NAMES = ['$CUTIF', '$cutif', '$CUT', '$BREAK', '$VAR', 'cutIf1', 'doBreak', '$CUTIF_1', '$IF', '$label']
 INTERNAL_TEMPLATES = ['p :- %n(%s), q.', 'p :- q, %n(%s).', 'p :- %n(%s).', 'p :- ( a -> %n(%s) ; b ).', 'p :- %n(%s, b), q.',
                       'p :- ( %n(%s) -> a ; b ), c.', 'p :- \\+ %n(%s), q.', 'p(X) :- %n(X, %s), q(X).']
@@ -337,7 +354,7 @@ def run_shard(spec):
         if kind == 'strings':
             items = list(strings(3))
         else:
-            items = PAYLOADS
+            items = PAYLOADS + BREAKOUTS
         idx = 0
         for s in items:
             qs = quote(s)
